@@ -37,6 +37,11 @@ def gen_history_case(ctx, run, prop, **over):
     ops = hg.history()
     if over_frozen and rc.random() < 0.35 and len(ops) >= 6:
         ops = add_frozen_windows(rng_for(ctx.seed, prop, run, "frozen"), ops)
+    if over_frozen and rc.random() < 0.3:
+        # one or two assignments fail half-way first (a container read or write raises at a seeded position) and are then
+        # repeated: the repeat is an assignment like any other (what the failed attempt itself may do is C18's business)
+        rf = rng_for(ctx.seed, prop, run, "faulty")
+        ops = insert_markers(rf, ops, lambda r: ("faulty", r.choice(["r", "r", "w"]), r.randint(0, 12)), 1, 2)
     return {"cfg": cfg, "spec": spec.to_json(), "ops": ops}
 
 
@@ -93,16 +98,36 @@ class C01:
         i = -1
         try:
             frozen = False
+            pending_fault = None
             for i, op in enumerate(case["ops"]):
                 if op[0] in ("freeze", "unfreeze"):
                     frozen = op[0] == "freeze"
                     (ex.world.mgr.freeze_tree if frozen else ex.world.mgr.unfreeze_tree)()
                     ex.count("fault:freeze" if frozen else "unfreeze")
                     continue
+                if op[0] == "faulty":
+                    pending_fault = (op[1], op[2])
+                    continue
                 if frozen:
                     if classify_frozen(ex.model, op) != "plain":
                         continue            # would change the graph: C17's business
                     ex.count("plain_assignments_while_frozen")
+                if pending_fault is not None and op[0] in ("setv", "sete"):
+                    fk, fn = pending_fault
+                    pending_fault = None
+                    try:
+                        model_step(ex.model.clone(), op, ex.g_restricted)
+                        applicable = True
+                    except ModelReject:
+                        applicable = False
+                    if applicable:
+                        trf, excf = run_traced(lambda: ex.world.apply(op), {"kind": fk, "n": fn, "fired": False, "tag": fn, "exc": "plain"})
+                        if isinstance(excf, SimStall):
+                            raise excf
+                        if excf is not None and excf is not _Ctx.fired:
+                            ex.count("stopped_on_other_exception_in_faulted_attempt")
+                            break
+                        ex.count("fault:update_fails_then_repeated" if excf is not None else "update_repeated_without_fault")
                 st = ex.step(op)
                 if st is None:
                     continue
@@ -162,6 +187,8 @@ class C02(C01):
             return gen_cyclic_case(ctx, run, "C02")     # 10 % of the runs: mutually dependent function tasks
         if run % 80 == 9:
             return gen_chain_case(ctx, run, "C02")
+        if run % 200 == 29:
+            return gen_collide_case(ctx, run, "C02")    # two triggered task ids with colliding hashes: both run
         return gen_history_case(ctx, run, "C02", frozen_windows=True)
 
     @staticmethod
